@@ -421,7 +421,17 @@ def r_push_sorted(ctx, rule='R-PUSH-SORTED'):
             key = '%s/push#%d' % (f.path, n)
             used = any(u['k'] != 'drop' for u in f.uses(c.dest['l'])) if not c.dest['p'] else True
             v = c.arg_term(1)
-            ascending = any(s[0] == 'call' and (s[1].endswith('Iterator::next') or s[1].endswith('RoaringBitmap>::select')) for s in walk(v))
+            ascending = any(s[0] == 'call' and s[1].endswith('Iterator::next') for s in walk(v))
+            # `while let Some(x) = b.select(0) / b.min() { .. b.remove_smallest(1) / b.remove(x) .. }` with nothing added to b: ascending too
+            for s in walk(v):
+                if s[0] == 'call' and ((s[1].endswith('RoaringBitmap>::select') and const_eval(s[2][1]) == 0) or s[1].endswith('RoaringBitmap>::min')):
+                    src = root(s[2][0])
+                    on_src = [x for x in f.calls() if x.args and root(x.arg_term(0)) == src]
+                    removes = [x for x in on_src if (x.callee.endswith('RoaringBitmap>::remove_smallest') and const_eval(x.arg_term(1)) == 1) or
+                               (x.callee.endswith('RoaringBitmap>::remove') and paths.mentions_call(x.arg_term(1), s[3]))]
+                    adds = [x for x in on_src if x.callee.endswith(('RoaringBitmap>::insert', 'RoaringBitmap>::push', 'bitor_assign', 'Extend::extend', 'RoaringBitmap>::insert_range', 'bitxor_assign', 'RoaringBitmap>::append'))]
+                    if removes and not adds:
+                        ascending = True
             ctx.check(used or ascending, rule, key, c.loc(), 'pushed value comes from an ascending iteration' if ascending else 'push result is checked',
                       '`RoaringBitmap::push` in `%s` is fed with %s, which is not taken from an ascending iteration, and its result is ignored: the value is silently dropped unless it is larger than everything already in the bitmap' % (f.path, show(v)[:80]))
     ctx.floor(rule, 'RoaringBitmap::push sites', n, 3)
@@ -982,7 +992,9 @@ def r_worklist(ctx, rule='Q-WORKLIST'):
                      'RoaringBitmap>::remove', 'remove_biggest', 'RoaringBitmap>::clear'))]
                 good = all(paths.must_pass(f, sel.target, [c.bb], [rems[0].bb]) for c in others)
             ctx.check(good, rule, f.path + '/pop-one', sel.loc(), 'the worklist loop removes exactly the id it examines', 'the over-full bucket worklist of `%s` does not remove the id it examines (or removes more): a bucket would be skipped or processed forever' % f.path)
-            ors = [c for c in f.calls() if c.callee.endswith('bitor_assign') and root(c.arg_term(0)) == wl]
+            # set-union forms: `wl |= x`, `wl.extend(x)` (Extend<u32> inserts every element)
+            ors = [c for c in f.calls() if len(c.args) == 2 and root(c.arg_term(0)) == wl and
+                   (c.callee.endswith('bitor_assign') or c.callee.endswith('Extend::extend'))]
             okor = bool(ors) and any(any(s[0] == 'call' and s[1].startswith('writer::Writer') for s in walk(c.arg_term(1))) for c in ors)
             ctx.check(okor, rule, f.path + '/requeue', sel.loc(), 'buckets reported over-full by the remainder insertion are OR-ed back into the worklist',
                       'in `%s` buckets that became over-full while inserting the remainder are not put back on the worklist (they would stay above the capacity)' % f.path)
